@@ -619,7 +619,7 @@ class RoundTrip(ProtoBase):
             if impl == "abort" and m.endswith(" readpanic"):
                 return "proto.nested_list" in self.classes(req)
             return impl == m
-        return impl == model
+        return re.sub(r" reuse:[01]$", "", impl) == model
 
     def classes(self, req):
         items = self.req_items(req)
@@ -633,6 +633,11 @@ class RoundTrip(ProtoBase):
         ty, val = uperlib.parse_sx(items[0]), uperlib.parse_sx(items[1])
         if ans in ("panic", "abort"):
             return "panic/abort/hang while writing or reading back a value of a generated type"
+        if ans.endswith(" reuse:0") and ty[0] != "choice":
+            # (a root CHOICE leaves the writer in the nested state in the code as it is: reuse after a root
+            # CHOICE is outside the property, which speaks of one value per writer)
+            return "a writer that has already written this value writes different octets for it the second time"
+        ans = re.sub(r" reuse:[01]$", "", ans)
         if not ans.startswith("ok "):
             return f"value of a generated type refused by the writer: {ans}"
         a = uperlib.split_sx(ans[3:])
@@ -1516,7 +1521,7 @@ class SchemaAgree(ProtoBase):
             return True
         if req.split(" ")[1] == "rt":
             return impl == re.sub(r" peq:[01]$", "", model)
-        return impl == model
+        return re.sub(r" reuse:[01]$", "", impl) == model
 
     def ensure(self):
         """--replay does not call prepare()"""
@@ -1531,6 +1536,10 @@ class SchemaAgree(ProtoBase):
         n = self.req_name(req)
         module, sc, msg = self.message_of(n)
         tyname = n.split("::")[1]
+        if op == "enc" and ans.endswith(" reuse:0") and self.pty.get(n, ["?"])[0] != "choice":
+            return ("the octets a writer appends for this value after it has already written it once are not the "
+                    "message the schema describes (they differ from the octets of a fresh writer)")
+        ans = re.sub(r" reuse:[01]$", "", ans)
         if op == "schema":
             if not ans.startswith("ok "):
                 return f"no definition for the type in the generated .proto: {ans}"
